@@ -1,5 +1,6 @@
 """C05 — quiescent convergence: fault-free rounds reach a fixed point at which the remaining work is blocked for a documented reason."""
 import ast
+import os
 import pathlib
 
 from vf import core
@@ -310,8 +311,34 @@ def batch_corpus():
     return out
 
 
+def quota_corpus():
+    """a destination that is over its size limit for a while and then is not: the waiting transfer must go through afterwards
+    (the file system has room for six such transfers only, so nothing may stay reserved by the refused attempts)"""
+    spec = {"groups": [{"name": "g1"}, {"name": "g2"}],
+            "nodes": [{"name": "src", "group": "g1", "stype": "F", "host": "h1", "active": True, "username": "u", "address": "addr"},
+                      {"name": "dst", "group": "g2", "stype": "A", "host": "h1", "active": True, "username": "u", "address": "addr", "max_total_gb": 1e-12}],
+            "acqs": ["acq1"], "files": [{"acq": "acq1", "name": "f0", "size": 13}, {"acq": "acq1", "name": "f1", "size": 150}],
+            "copies": [{"file": 0, "node": "dst", "has": "Y", "wants": "Y"}, {"file": 1, "node": "src", "has": "Y", "wants": "Y"}],
+            "reqs": [{"file": 1, "from": "src", "to": "g2", "state": "pending"}], "rules": [], "unregistered": [], "ireqs": []}
+    return [(spec, [("iter", "h1")] * 8 + [("cli", "node modify", ["dst", "--no-max-total"])], 2000)]
+
+
 def explore_histories(ctx, base, n):
     worst = 0
+    for spec, ops, free in quota_corpus():
+        orig_statvfs = os.statvfs
+
+        class _SV:
+            def __init__(self, real):
+                self.__dict__.update({k: getattr(real, k) for k in dir(real) if k.startswith("f_")})
+                self.f_bavail, self.f_bsize, self.f_frsize = free, 1, 1
+
+        os.statvfs = lambda p_, _o=orig_statvfs: _SV(_o(p_))
+        try:
+            run_history(ctx, base, spec, ops)
+        finally:
+            os.statvfs = orig_statvfs
+        ctx.count("history")
     corpus = batch_corpus()
     for k in range(n + len(corpus)):
         if k < len(corpus):
